@@ -16,6 +16,10 @@ type MemDevice struct {
 	Syncs   int
 	// FailWrite, when set, is consulted before every write.
 	FailWrite func(off int64, n int) error
+	// CorruptReads > 0 makes that many upcoming ReadAt calls return data with the first byte flipped.
+	CorruptReads int
+	// LastReadOff is the offset of the most recent ReadAt.
+	LastReadOff int64
 	// OnWrite is called (without the lock) before a write is applied; it may block (gating).
 	OnWrite func(off int64, p []byte)
 }
@@ -35,6 +39,11 @@ func (d *MemDevice) ReadAt(p []byte, off int64) (int, error) {
 		return 0, fmt.Errorf("memdevice: read at %d out of range", off)
 	}
 	n := copy(p, d.Data[off:])
+	d.LastReadOff = off
+	if d.CorruptReads > 0 && n > 0 {
+		d.CorruptReads--
+		p[0] ^= 0xff
+	}
 	if n < len(p) {
 		return n, io.EOF
 	}
